@@ -20,7 +20,7 @@ func init() {
 				"Not decided: the kernel's mark list itself; quiescence; early return of the release loop on a syscall error (exempt).",
 			Rule:        "one obligation per callback return, per wd-table delete and calling root, per inotify_rm_watch call, per syscall descriptor operand; non-trivial = site reachable",
 			Assumptions: []string{"go/types + go/ssa", "inotify(7): the kernel drops a watch itself on IN_IGNORED/IN_DELETE_SELF/IN_UNMOUNT", "production folding (E-F)"},
-			MinObl:      12,
+			MinObl:      30,
 		},
 		Configs: tiered(linuxQuick, linuxAll),
 		Run:     runC12,
